@@ -7,8 +7,8 @@
                             `vmaxOf`, `invW`  (`|W_i| > W_tol·max W ? 1/W_i : 0`), `defectOf`
     `SVD::lindep(i)`     ↦ `isNull iw i`     (`inv_W_(i) == 0`: tests the i-th SINGULAR VALUE)
     `SVD::min_subset_x`  ↦ `minSubsetX`      (`defect > n_min → BadRegularization`; for every
-                            null column k in increasing order: S-norm `s`, EXACT test `s == 0 →
-                            BadRegularization`, column k `/= s`, every other column j (null or not)
+                            null column k in increasing order: S-norm `s`, `s <= W_tol·‖V_k‖ →
+                            BadRegularization` (`refuse`), column k `/= s`, every other column j (null or not)
                             `-= ⟨V_j, V_k⟩_S · V_k`)
     `SVD::solve`         ↦ `solveX`          (`t_i = (Σ_k U_ki b_k)·inv_W_i`, `x = V t`)
     `AdjSVD::solve`      ↦ `residuals`       (`r = A x − b`), `AdjBaseFull::sum_of_squares` ↦ `rtr`
@@ -77,9 +77,9 @@ def defectOf (n : Nat) (iw : Nat → K) : Nat := ((List.range n).filter (isNull 
 def dotS (S : List Nat) (f g : Nat → K) : K := S.foldl (fun s im => s + f im * g im) 0
 
 /-- the refusal test of `min_subset_x` on the S-norm `s` of the null column `k`:
-    `none`      — the code as it is: EXACT test `s == 0`;
-    `some tol`  — the proposed repair (notes/proposed/C20-svd-min-subset-tolerance.diff):
-                  `s <= W_tol·‖V_k‖` with the norm of the whole column. -/
+    `some tol`  — the code as it is (repo commit b39e70e): `s <= W_tol·‖V_k‖` with the norm of
+                  the whole column;
+    `none`      — the code before that commit: EXACT test `s == 0`. -/
 def refuse (n : Nat) (fix : Option K) (V : DMat K) (k : Nat) (s : K) : Bool :=
   match fix with
   | none => Scalar.beq s 0
@@ -154,8 +154,8 @@ structure Dec (K : Type) where
   W : Array K
   V : DMat K
 
-/-- everything a fresh `AdjSVD` answers, from the factors: `tol` = `W_tol`; `fixed` selects the
-    repaired refusal test of `min_subset_x` -/
+/-- everything a fresh `AdjSVD` answers, from the factors: `tol` = `W_tol`; `fixed = true` is the
+    current refusal test of `min_subset_x` (b39e70e), `false` the exact test before it -/
 def answerOf (fixed : Bool) (tol : K) (m n : Nat) (A : DMat K) (b : Array K) (reg : Reg) (d : Dec K) :
     Except ErrKind (Answer K) :=
   let iw := invW tol n (vget d.W)
